@@ -254,6 +254,9 @@ def run(ctx: Ctx):
         ctx.fail(clause, meta[idx], None, None)
     ctx.assumptions += ["value identity on the wire is recognised by marker texts (replay) or by the value's own content line (random trees)",
                         "four hash seeds are compared, not all"]
+    # ------------------------------------------------------------- FRESH: history independence of returned objects (spec/Fresh.tla)
+    from vf import fresh
+    fresh.step(ctx, "C10")
     return ctx.finish(rule=(
         "all insertion histories of length <=4/5 over 8 add operations (incl. repeated names, case variants, parameter insertion "
         "orders) and 2 subcomponents; 120+ programs under 4 hash seeds; random typed trees validated by TLC; non-trivial = "
